@@ -407,7 +407,7 @@ pub fn run(tier: &str, seed: u64) -> i32 {
         rep.outcome.merge(search(&subl, seed, nl, 900, &|b, col| dispatch(&subl, b, col)));
         let subw = format!("c02/{}/wide", c.name());
         let nw = super::scale(tier, 16, 200);
-        rep.outcome.merge(search(&subw, seed, nw, 6000, &|b, col| dispatch(&subw, b, col)));
+        rep.outcome.merge(crate::runner::search_len(&subw, seed, nw, 5000, 9000, &|b, col| dispatch(&subw, b, col)));
     }
     // position sweeps of adjacent cancelling pairs
     if rep.outcome.found.is_empty() {
